@@ -48,7 +48,7 @@ fn judge_and_run(out: &mut Out, toks: &[Tok], src: &str, hook: bool) {
     out.eval();
     // the tuple-typed views and the context-free form must run the same program
     {
-        let which = if tree.children().len() % 2 == 0 { 5 } else { 12 };
+        let which = if out.evaluations % 2 == 0 { 5 } else { 12 };
         let (effects, vars) = exec::run_typed(src, tree, &m, which);
         out.eval();
         let same_log = rr.run.log.len() == effects.len() && rr.run.log.iter().zip(&effects).all(|(a, b)| a.same(b));
